@@ -245,6 +245,27 @@ EXTRA2 = {
 for _p, _t in EXTRA2.items():
     CLAIMS[_p]["text"] += _t
 
+EXTRA3 = {
+    "C01": " via = rpOIDCslash: a relying party configured with the issuer plus a trailing slash.",
+    "C02": " Entry hintExpired: the expired copy of every token as id_token_hint. KeyRotation: an encryption key published under the key id of a signing key.",
+    "C03": " Glob G4 (single trailing star) and a path one segment deeper.",
+    "C04": " Scope lists without openid.",
+    "C05": " World client cw (client_secret_basic) also holds a public key; the refresh grant disabled while token exchange hands out refresh tokens. "
+           "KNOWN FINDING (7 signatures): introspection / revocation accept a private_key_jwt assertion from such a client.",
+    "C06": " at_hash / c_hash are recomputed by the harness itself.",
+    "C07": " Environment event Withdraw(client, grant); tokens of cx are meant for two resource servers (audience slices with spare capacity, carried over by the storage).",
+    "C09": " A fatal error (stack overflow) in library code that kills the process serving the histories is reported as C09.nopanic:processCrash.",
+    "C11": " URI shape queryMarkup (quotes and angle brackets in a registered redirect URI).",
+    "C13": " KeyRotation: key E (use = enc) under the key id of signing key A.",
+    "C15": " The storage's veto may come with its second hook (CreateTokenExchangeRequest).",
+    "C16": " Poll interval of one second; every storage call honours its context.",
+    "C17": " Closed-loop event ClientCreds (rp.ClientCredentials on a relying party that serves logins); tampers nearKey / nearKeyPkce (hash keys that differ beyond byte 64).",
+    "C19": " Issuer of the implicit-flow ID token; request object carrying the redirect_uri alone.",
+    "C20": " Cells userFormProviderB.verificationURI and callerEndpointParams; a 'concurrent map' fatal error of the runtime in library code counts as a race report.",
+}
+for _p, _t in EXTRA3.items():
+    CLAIMS[_p]["text"] += _t
+
 NOT_APPLICABLE = {}
 
 
